@@ -1759,7 +1759,16 @@ int QSexact_solver (mpq_QSdata * p_mpq,
 			break;
 		case QS_LP_INFEASIBLE:
 			y_mpf = mpf_EGlpNumAllocArray (p_mpf->qslp->nrows);
-			EGcallD(mpf_QSget_infeas_array (p_mpf, y_mpf));
+			if (mpf_QSget_infeas_array (p_mpf, y_mpf))
+			{
+				/* as at the double level: no ray to be had from this solve is no
+				 * reason to give up, the next precision may provide one */
+				MESSAGE (p_mpq->simplex_display ? 0 : __QS_SB_VERB, "no infeasibility"
+								 " ray at this precision, continuing in higher precision");
+				mpf_EGlpNumFreeArray (y_mpf);
+				last_status = *status = QS_LP_UNSOLVED;
+				goto NEXT_PRECISION;
+			}
 			y_mpq = QScopy_array_mpf_mpq (y_mpf);
 			mpf_EGlpNumFreeArray (y_mpf);
 			if (QSexact_infeasible_test (p_mpq, y_mpq))
